@@ -187,5 +187,17 @@ claim(
     "side lists parameters exactly as inspect.signature does. Actual outputs on importable modules are not compared.",
     TB,
 )
+claim(
+    "C14",
+    "finite-domain abstract evaluation of the finder over a virtual file system (pure path arithmetic; three listing orders) - precedence "
+    "table of find_package against the import system's rule, sub-module enumeration table, .pth scan, intermediate namespace modules, module "
+    "classification table - plus listing-order taint: every directory-listing call must be sorted/min'ed or used for membership only before "
+    "an order-sensitive consumer (consumers must sort with a total key)",
+    "Decided on 81 two-search-path layouts x three listing orders and five package layouts: which file provides a package (first path wins, "
+    "directory before module file, namespace portions, stubs), which sub-modules are listed under which dotted parts, that results do not "
+    "depend on the listing order, how modules are classified, and that every listing source in finder.py is order-clean. Agreement with "
+    "pkgutil.walk_packages on generated trees is not decided.",
+    TB + "; the virtual file system stands for the OS; the import-system precedence rule is written in the rule module",
+)
 for _p in [f"C{n:02d}" for n in range(1, 20) if f"C{n:02d}" not in CLAIMED]:
     NOT_YET[_p] = "check under construction in this round (static rules designed in DESIGN.md section 3; not yet registered)"
